@@ -5,6 +5,8 @@ package main
 // GENERIC LAYER  which = index of the (first) plugin in the table of plugins.go, 0..27
 //   case = ((plugin ...) (ev ...))   plugin = (#type #config-json (maxEventSize cutOff cutField))
 //                                    ev     = 0 (time-out, delivered only to a busy action) | (#json-text size)
+//                                             | (text size [bufCap]) with a repeat-part text | a directive (real event
+//                                             pool / clock jump / twin instances): see the head of runner.go
 //   obs  = (1) well-formed | (2 #site) panic | (3 #..) undefined ActionResult | (4 #..) the event no longer
 //          encodes / re-parses | (5 #..) an event already handed on changed later | (6 #..) Fatal | (7 #..) config rejected
 //   The model's answer is the constant (1): anything else violates the property.
@@ -14,11 +16,16 @@ package main
 //   35 convert_utf8_bytes | 36 hash normaliser (bracket / quote tokenizer) | 37 split | 38 json_extract
 
 import (
+	"encoding/hex"
 	"fmt"
 	"os"
+	"runtime/pprof"
 	"sort"
 	"strings"
 	"time"
+
+	"github.com/ozontech/file.d/pipeline"
+	insaneJSON "github.com/ozontech/insane-json"
 
 	"verif/harness/hmain"
 	"verif/harness/hx"
@@ -78,10 +85,10 @@ func moveBlockLater(pl []hx.Sx) bool {
 func streamForChain(base string, hasK8s, moveBlock bool, evs []hx.Sx) string {
 	lenient, bad := false, false
 	for _, e := range evs {
-		if hx.IsInt(e) {
+		if !isInput(e) {
 			continue
 		}
-		text := hx.Bytes(hx.Items(e)[0])
+		text := evText(e)
 		if lenientJSON(text) {
 			lenient = true
 		}
@@ -98,6 +105,56 @@ func streamForChain(base string, hasK8s, moveBlock bool, evs []hx.Sx) string {
 		return "lenient-json"
 	}
 	return base
+}
+
+// ---------------------------------------------------------------------------------------------
+// Finding C13-additional-scalar-full-node-pool (notes/finding-C13-additional-scalar-full-node-pool.md):
+// insane-json's DecodeBytesAdditional of a BARE SCALAR ("7", "true", "\"x\"") takes one node without the
+// pool-expansion check every other path has; when the event filled its node pool up to the last slot
+// (15 of 16, 31 of 32, 63 of 64 slots) the next getNode (any AddField of a later action) indexes out of
+// range. json_decode and decode (json) hand any field to it. Cases of that family (test in emit
+// below) go to the finding's own stream once its id is listed in
+// known_findings.json and are withheld until then; every other case and every other outcome stays put.
+// (Not only strings: json_decode / decode take AsBytes of whatever node the field holds, so
+// {"log":1E5} and {"message":null} reach the same path.)
+const scalarFindingID = "C13-additional-scalar-full-node-pool"
+const scalarStream = "additional-scalar-full-pool"
+
+var scalarListed = knownListed(scalarFindingID)
+
+// decodesOnTop: some action of the chain decodes an embedded document on top of the event
+func decodesOnTop(cs hx.Sx) bool {
+	for _, pl := range hx.Items(hx.Items(cs)[0]) {
+		if t := hx.Str(hx.Items(pl)[0]); t == "json_decode" || t == "decode" {
+			return true
+		}
+	}
+	return false
+}
+
+func indexRangePanic(obs hx.Sx) bool {
+	o := hx.String(obs)
+	return strings.HasPrefix(o, "(2 #") && strings.HasSuffix(o, hex.EncodeToString([]byte(" index-range"))+")")
+}
+
+// emit: c.Do for the generic layer. A case belongs to the finding iff its chain contains a decoding
+// action, its run ends in an index-out-of-range panic, AND the same case runs clean when every input Root
+// starts with a node pool of 512 instead of the production 16 (so the panic is the exhausted node pool and
+// nothing else: with room in the pool the unchecked scalar path is harmless).
+func emit(c *hmain.Ctx, stream string, which int, cs hx.Sx, nontrivial bool) hx.Sx {
+	if decodesOnTop(cs) && indexRangePanic(execChain(cs, map[string]int{})) {
+		bigNodePool = true
+		roomy := execChain(cs, map[string]int{})
+		bigNodePool = false
+		if hx.String(roomy) == "(1)" {
+			if !scalarListed {
+				c.W.Count("withheld_until_listed:" + scalarFindingID)
+				return hx.L(hx.I(obsOK))
+			}
+			stream = scalarStream
+		}
+	}
+	return c.Do(stream, which, cs, nontrivial)
 }
 
 // settings that matter to a plugin (only the k8s multiline action reads them)
@@ -120,6 +177,7 @@ func settingsFor(r *hx.Rng, typ string) [3]int {
 }
 
 func c13Gen(c *hmain.Ctx) {
+	tStart := time.Now()
 	c.R = c.R.Fork()
 	r := c.R
 	g := evGen{r}
@@ -142,7 +200,7 @@ func c13Gen(c *hmain.Ctx) {
 			continue
 		}
 		t := timeoutEvent()
-		fatalMsg = ""
+		setFatal("")
 		msg := hx.Catch(func() { inst.Do(t) })
 		if msg == "" {
 			c.W.Count("stray_timeout_survived:" + p.typ)
@@ -161,7 +219,7 @@ func c13Gen(c *hmain.Ctx) {
 					v1 := catalogue[i]
 					v2 := catalogue[(i+1)%len(catalogue)]
 					evs := []hx.Sx{evSx(catDoc(v1, shape)), evSx(catDoc(v2, shape)), hx.I(0)}
-					c.Do(streamFor("catalogue", p.typ == "k8s-multiline", evs), pi, hx.L(hx.L(plugSx(p.typ, cf, settingsFor(nil, p.typ))), hx.L(evs...)), true)
+					emit(c, streamFor("catalogue", p.typ == "k8s-multiline", evs), pi, hx.L(hx.L(plugSx(p.typ, cf, settingsFor(nil, p.typ))), hx.L(evs...)), true)
 				}
 			}
 		}
@@ -169,8 +227,10 @@ func c13Gen(c *hmain.Ctx) {
 	c.W.Count(fmt.Sprintf("catalogue_values_%d", len(catalogue)))
 
 	// 2. random sequences for every plugin (stateful ones get more and longer sequences)
+	// debug: its zap sampler (first / thereafter per interval) only starts dropping and re-admitting
+	// from the 5th event of one tick on
 	stateful := map[string]int{"join": 5, "join_template": 5, "k8s-multiline": 6, "parse_es": 3, "throttle": 3, "cardinality": 3,
-		"convert_utf8_bytes": 3, "modify": 3, "mask": 2, "hash": 2, "json_extract": 2, "decode": 3, "split": 2}
+		"convert_utf8_bytes": 3, "modify": 3, "mask": 2, "hash": 2, "json_extract": 2, "decode": 3, "split": 2, "debug": 5}
 	for pi, p := range plugins {
 		n := 25 * c.Scale * (1 + stateful[p.typ])
 		for i := 0; i < n; i++ {
@@ -187,8 +247,11 @@ func c13Gen(c *hmain.Ctx) {
 				} else {
 					evs = append(evs, evSx(g.event()))
 				}
+				if isInput(evs[len(evs)-1]) && r.Chance(1, 3) { // the capacity event.Buf arrives with (nil for a brand-new pooled event)
+					evs[len(evs)-1] = withCap(evs[len(evs)-1], hx.Pick(r, bufCaps))
+				}
 			}
-			c.Do(streamFor("random", p.typ == "k8s-multiline", evs), pi, hx.L(hx.L(plugSx(p.typ, cf, settingsFor(r, p.typ))), hx.L(evs...)), len(evs) >= 2)
+			emit(c, streamFor("random", p.typ == "k8s-multiline", evs), pi, hx.L(hx.L(plugSx(p.typ, cf, settingsFor(r, p.typ))), hx.L(evs...)), len(evs) >= 2)
 		}
 	}
 
@@ -223,10 +286,16 @@ func c13Gen(c *hmain.Ctx) {
 				evs = append(evs, evSx(g.event()))
 			}
 		}
-		c.Do(streamForChain("chain", plugins[first].typ == "k8s-multiline", moveBlockLater(pl), evs), first, hx.L(hx.L(pl...), hx.L(evs...)), true)
+		emit(c, streamForChain("chain", plugins[first].typ == "k8s-multiline", moveBlockLater(pl), evs), first, hx.L(hx.L(pl...), hx.L(evs...)), true)
 	}
 
+	tg := time.Now()
+	genThresholds(c, g)
+	tm := time.Now()
 	genModels(c)
+	if os.Getenv("C13_TIMES") != "" {
+		fmt.Fprintf(os.Stderr, "stream-time thresholds %v models %v before %v\n", tm.Sub(tg), time.Since(tm), tg.Sub(tStart))
+	}
 
 	if os.Getenv("C13_TIMES") != "" {
 		for i, p := range plugins {
@@ -259,8 +328,18 @@ func c13Gen(c *hmain.Ctx) {
 }
 
 func main() {
+	// what cmd/file.d/file.d.go sets before anything is decoded (the library default is 128 nodes per
+	// decoder: with it no event below 112 nodes ever walks a pool expansion, and resetEvent's
+	// "PoolSize() > 4 * DefaultJSONNodePoolSize" always holds)
+	if f := os.Getenv("C13_PROF"); f != "" { // development aid
+		fh, _ := os.Create(f)
+		pprof.StartCPUProfile(fh)
+		defer pprof.StopCPUProfile()
+	}
+	insaneJSON.DisableBeautifulErrors = true
+	insaneJSON.StartNodePoolSize = pipeline.DefaultJSONNodePoolSize
 	hmain.Run(&hmain.Prop{ID: "C13",
-		Rule: "catalogue: every table configuration x every notable value (invalid UTF-8, broken embedded JSON, C12 decoder witnesses, huge numbers, containers, non-object roots) in 4 document shapes, 2 events + time-out per case; random: sequences over an adversarial document grammar for every plugin; chain: 2..3 plugins sharing the events; model streams: exhaustive small scope + random inputs of each modelled function. Non-trivial = at least two events, or a model case whose input exercises the modelled arithmetic (see models.go); distinct = distinct (sub-model, case) text.",
+		Rule: "catalogue: every table configuration x every notable value (invalid UTF-8, broken embedded JSON, C12 decoder witnesses, huge numbers, containers, non-object roots) in 4 document shapes, 2 events + time-out per case; random: sequences over an adversarial document grammar for every plugin; chain: 2..3 plugins sharing the events; threshold streams (thresholds.go: node-sweep, recycle, buf-growth, big-values, cardinality-ttl, hash-tokens, split-fanout, deep-embedded, twin): inputs that cross the size / count / history thresholds hard-coded in the code (node-pool sizes 16 / 32 / 64 / 128, event.Buf 4096, AvgEventSize, MapUseThreshold, jx depth 10000, regexp backtracker limit, cache ttl), events from the real event pool, two instances sharing one config; model streams: exhaustive small scope + random inputs of each modelled function. Non-trivial = at least two events, or a model case whose input exercises the modelled arithmetic (see models.go); distinct = distinct (sub-model, case) text.",
 		Gen: func(c *hmain.Ctx) {
 			c13Gen(c)
 			// processor-level clause on the real pipeline: a time-out event is only handed to a busy action
